@@ -4,7 +4,11 @@ A case (JSON):
   kinds   : ["k1","k2",...]                  service keys (child machine kinds); the root machine is "r"
   invoke  : {"r": "k1", "k1": null, ...}     machine-`invoke` declared by the state `inv` of each machine
   cmds    : {"C0": [action,...], ...}        action lists (DSL below); every machine declares every command
-  ops     : [["cmd", actorId, name] | ["adv", ms] | ["stop", actorId]]
+  ops     : [["cmd", actorId, name] | ["adv", ms] | ["stop", actorId] | ["fin", actorId] | ["fail", actorId]]
+            "fin" / "fail" (cases with `completion: true`): the actor's machine reaches its top-level FINAL state (status
+            `done`) / fails (an invoked service without onError raises: status `error`) BY ITSELF - nobody stops it - and the
+            clock advances by POLL_MS, so that whoever watches the child (the async managing task of an `invoke`, the sync
+            watcher thread of a non-blocking spawn) has reacted when the op is observed
   eager   : bool                             sync engine only: thread schedule (see VThreads below)
 
 Action DSL:  ["spawnChild", key, eid|None, sysId|None] ["spawn", key, eid|None, sysId|None, blocking]
@@ -36,6 +40,8 @@ import xstate_statemachine.interpreter as _ai
 import xstate_statemachine.sync_interpreter as _si
 
 ROOT = "r"
+POLL_MS = 10          # >= the poll interval of both watchers (async `_ACTOR_POLL_INTERVAL` 5 ms, sync watcher thread 10 ms)
+FINISHED = ("done", "error")
 
 
 # ------------------------------------------------------------------------------------------ uuid shim
@@ -106,6 +112,7 @@ class World:
         self.reacts = []        # reactions run: {"op", "time", "seq", "actor", "kind", "msg"}
         self.static_warns = []  # warnings a reaction is known to cause without passing an event callable (sendParent at the root)
         self.opt_warns = []     # warnings that may or may not be logged (same-instant races)
+        self.finished = {}      # uid -> (op index, time, seq, "done"|"error"): the machine completed / failed by itself
 
     # ---- bookkeeping
     def next_serial(self):
@@ -134,6 +141,10 @@ class World:
                     d["stopped_before_start"] = d["stopped_before_start"] or first["stopped_before_start"]
                     d["id_reused"] = bool(d.get("id_reused")) or bool(first.get("id_reused"))
                     d["stops_in_op"] = d["stops_in_op"] + [a for a in first["stops_in_op"] if a not in d["stops_in_op"]]
+            # an actor above it FINISHED by itself (status done / error) and was never stopped although it is no longer
+            # (or its stopped parent never was) in a position to be: nothing can stop what lives below it
+            fa = _finished_unstopped_ancestor(o)
+            d["finished_unstopped_ancestor"] = fa.id if fa is not None else None
             if kind in ("orphan", "spawned-child-not-in-children-map") and id(o) not in self.origin:
                 self.origin[id(o)] = {k: d.get(k) for k in ("stopped_before_start", "id_reused", "stops_in_op")}
         self.problems.append(d)
@@ -225,6 +236,12 @@ class RecPlugin(PluginBase):
     def on_interpreter_stop(self, interpreter):
         self.w.stops.setdefault(self.u, (self.w.op, self.w.clock()))
         self.w.stop_seq.setdefault(self.u, self.w.next_seq())
+
+    def on_done(self, interpreter, output):
+        self.w.finished.setdefault(self.u, (self.w.op, self.w.clock(), self.w.next_seq(), "done"))
+
+    def on_error(self, interpreter, error):
+        self.w.finished.setdefault(self.u, (self.w.op, self.w.clock(), self.w.next_seq(), "error"))
 
     def on_action_error(self, interpreter, action, error):
         self.w.action_errors.append((interpreter.id, action.type, f"{type(error).__name__}: {error}"[:200]))
@@ -356,12 +373,24 @@ def machine_config(mid, case, world):
     src = (case.get("invoke") or {}).get(mid)
     if src:
         cfg["states"]["inv"]["invoke"] = {"src": src, "id": "iv"}
+    if case.get("completion"):
+        # the machine can END BY ITSELF: FIN -> its top-level final state (status `done`), FAIL -> a state whose invoked
+        # service raises with no onError declared (status `error`)
+        for st in ("idle", "inv"):
+            cfg["states"][st]["on"]["FIN"] = {"guard": "forMe", "target": "fin"}
+            cfg["states"][st]["on"]["FAIL"] = {"guard": "forMe", "target": "bad"}
+        cfg["states"]["fin"] = {"type": "final"}
+        cfg["states"]["bad"] = {"invoke": {"src": "boom", "id": "sb"}}
     return cfg
 
 
 def build(case, world):
     lg = make_logic(world, case)
     nodes = {}
+
+    def boom(interp, ctx, ev):
+        raise RuntimeError("boom")
+    lg.services["boom"] = boom
     for k in case["kinds"]:
         lg.services[k] = None
     for k in case["kinds"]:
@@ -423,7 +452,7 @@ def pre_op(world, case, op):
     """static expectations of a harness operation, computed BEFORE it runs (on the live objects)"""
     info = {"op": op, "t0": world.clock(), "n_objs": len(world.objs), "n_att": len(world.attempts), "tgt": None, "subtree": None,
             "expect_new": [], "escalates": 0, "warn": []}
-    if op[0] in ("cmd", "stop"):
+    if op[0] in ("cmd", "stop", "fin", "fail"):
         tgt = find_actor(world.root, op[1])
         info["tgt"] = tgt
         if tgt is None:
@@ -438,6 +467,8 @@ def pre_op(world, case, op):
         ser = world.next_serial()
         info["serial"] = ser
         world.must[(world.uid_of(tgt), ser)] = 1
+        if op[0] in ("fin", "fail"):
+            return info
         if op[2] == "GOINV":
             src = (case.get("invoke") or {}).get(tgt.machine.id)
             in_inv = any(n.id.endswith(".inv") for n in tgt._active_state_nodes)
@@ -512,7 +543,7 @@ def post_op(world, case, info, warns):
     # ---- delayed sends that became due during this op
     still = []
     for att in world.pending:
-        if att["due"] > now or (att["due"] == now and op[0] != "adv"):
+        if att["due"] > now or (att["due"] == now and op[0] not in ("adv", "fin", "fail")):
             still.append(att)
             continue
         su = att["sender"]
@@ -712,6 +743,18 @@ def post_op(world, case, info, warns):
                     world._seen.add(key)
                     world.problem("orphan", f"{o.id} is running but its parent {p.id} does not list it any more",
                                   actor=o.id, actor_obj=o, id_reused=_reused(world, o))
+            else:
+                # the same one or more levels up: an actor above `o` FINISHED by itself (done / error), was dropped from its
+                # parent's children map and never stopped - no stop() of anybody reaches `o` any more
+                fa = _finished_unstopped_ancestor(o)
+                if fa is not None and fa.parent is not None and not any(c is fa for c in fa.parent._actors.values()):
+                    key = ("dropped", id(o))
+                    if key not in world.__dict__.setdefault("_seen", set()):
+                        world._seen.add(key)
+                        world.problem("running-under-dropped-finished-ancestor",
+                                      f"{o.id} is running; its ancestor {fa.id} finished by itself (status {fa.status}), was removed from "
+                                      f"{fa.parent.id}._actors and never stopped: no stop() can reach {o.id} any more",
+                                      actor=o.id, actor_obj=o, ancestor=fa.id, ancestor_status=fa.status, id_reused=_reused(world, o))
     for (aid, t) in world.after_stop:
         key = ("late", aid, t)
         if key not in world.__dict__.setdefault("_seen", set()):
@@ -753,6 +796,16 @@ def _reused(world, o):
     return any(q is not a and q.id == a.id for a in chain for q in world.objs)
 
 
+def _finished_unstopped_ancestor(o):
+    """the nearest actor above `o` whose machine finished by itself (status done / error: `stop()` has never run on it,
+    it would read `stopped`) and that nobody can stop any more: its parent does not list it, or is itself stopped"""
+    for q in _ancestors(o):
+        if q.status in FINISHED and q.parent is not None and (
+                q.parent.status == "stopped" or not any(c is q for c in q.parent._actors.values())):
+            return q
+    return None
+
+
 def _ancestors(o):
     out = []
     p = o.parent
@@ -780,8 +833,11 @@ def _expect_delivery(world, att, exp_warn, now, at_due=False):
         return
     status_then = o.status if at_due else att["target_status"]
     if at_due:
-        stopped_before = u in world.stops and world.stops[u][1] < att["due"]
-        stopped_at = u in world.stops and world.stops[u][1] == att["due"]
+        # the recipient left `running` when it was stopped OR when its machine finished by itself (done / error: `send`
+        # refuses the event with the same warning), whichever came first
+        gone = [t for t in ([world.stops[u][1]] if u in world.stops else []) + ([world.finished[u][1]] if u in world.finished else [])]
+        stopped_before = bool(gone) and min(gone) < att["due"]
+        stopped_at = bool(gone) and not stopped_before and min(gone) == att["due"]
         if stopped_before:
             exp_warn.append("notrunning")
             att["forbid"] = True
@@ -793,18 +849,18 @@ def _expect_delivery(world, att, exp_warn, now, at_due=False):
             return
         world.must[(u, ser)] = world.must.get((u, ser), 0) + 1
         return
-    if status_then == "stopped":
+    if status_then == "stopped" or status_then in FINISHED:
         exp_warn.append("notrunning")
         att["forbid"] = True
-        att["why"] = "recipient-stopped"
+        att["why"] = "recipient-stopped" if status_then == "stopped" else "recipient-finished"
         return
     if status_then == "uninitialized":
         # the property says a spawned child is started: the message must arrive (sync engine: it does not)
         world.must[(u, ser)] = world.must.get((u, ser), 0) + 1
         att["flags"]["recipient_unstarted"] = True
         return
-    if u in world.stops and world.stops[u][0] == world.op:
-        # addressee stopped later in the same macrostep: its mailbox may be discarded
+    if (u in world.stops and world.stops[u][0] == world.op) or (u in world.finished and world.finished[u][0] == world.op):
+        # addressee stopped (or finished) later in the same macrostep: its mailbox may be discarded
         world.may[(u, ser)] = world.may.get((u, ser), 0) + 1
         return
     world.must[(u, ser)] = world.must.get((u, ser), 0) + 1
@@ -891,6 +947,13 @@ async def _run_async(case, world, wh):
                 await tgt.send(ev)
         elif op[0] == "adv":
             await asyncio.sleep(op[1] / 1000.0)
+        elif op[0] in ("fin", "fail"):
+            if tgt is not None:
+                ev = {"type": "FIN" if op[0] == "fin" else "FAIL", "to": world.uid_of(tgt)}
+                if "serial" in info:
+                    ev["k"] = info["serial"]
+                await tgt.send(ev)
+            await asyncio.sleep(POLL_MS / 1000.0)
         elif op[0] == "stop":
             if tgt is not None:
                 await tgt.stop()
@@ -1147,6 +1210,13 @@ def run_sync(case):
                     tgt.send(ev)
             elif op[0] == "adv":
                 sched.advance(op[1] / 1000.0)
+            elif op[0] in ("fin", "fail"):
+                if tgt is not None:
+                    ev = {"type": "FIN" if op[0] == "fin" else "FAIL", "to": world.uid_of(tgt)}
+                    if "serial" in info:
+                        ev["k"] = info["serial"]
+                    tgt.send(ev)
+                sched.advance(POLL_MS / 1000.0)
             elif op[0] == "stop":
                 if tgt is not None:
                     tgt.stop()
